@@ -276,7 +276,37 @@ def c08(lines, out):
         if n < last.get(h, 0):
             v.append(('order', 'module %s received payload %s after p%d, which was sent later' % (h, p, last[h])))
         last[h] = max(last.get(h, 0), n)
-    # nothing sent after an accepted pill is delivered, and the pill stops its recipient
+    # "a poison pill stops its recipient only after every message sent to it earlier has been delivered": when the loop itself
+    # (not an explicit stop / deregistration) runs the stop callback of a module with an accepted pill pending, every payload
+    # told to it before the pill — while it was RUNNING, and not stashed away by it — must have been handed to its handler
+    if any(r.op.split()[0] == 'burst' for r in tr.recs):
+        return v
+    told, got, pend = {}, {}, {}
+    for kind, inv, r in tr.events:
+        t = r.op.split()
+        if kind == 'R':
+            if t[0] == 'tell' and r.result == '0' and r.dump:
+                _, mods = parse_dump(r.dump)
+                if mods.get(t[2], {}).get('state') == 'R':
+                    told.setdefault(t[2], []).append(t[3])
+            if t[0] == 'pill' and r.result == '0':
+                pend[t[2]] = [p for p in told.get(t[2], []) if p not in got.get(t[2], set())]
+            if t[0] in ('stop', 'dereg', 'ctx_dereg', 'start') and r.dump:
+                _, mods = parse_dump(r.dump)
+                for h, m in mods.items():
+                    if m['state'] in ('S', 'Z', 'I'):
+                        told.pop(h, None); pend.pop(h, None)
+        else:
+            cb, hd, h, stt, evs = parse_invoke(inv)
+            if cb == 'on_evt':
+                for k, f in evs:
+                    if k == 'ps':
+                        got.setdefault(h, set()).add(f[2])
+            if cb == 'on_stop' and h in pend and t[0] in ('dispatch', 'loop') and h not in stashers:
+                missing = [p for p in pend[h] if p not in got.get(h, set())]
+                if missing:
+                    v.append(('pill_after_earlier', 'the pill stopped %s although %s, told to it before the pill, were never handed to it' % (h, ' '.join(missing))))
+                pend.pop(h, None); told.pop(h, None)
     return v
 
 
